@@ -264,7 +264,8 @@ def castFlt : Val → Option (BitVec 64) | .flt x => some x | _ => none
 rejects the batch; see `PChange.wellTyped`) -/
 def castArr : Val → List Bytes | .arr l => l.filterMap castStr | _ => []
 
-def deleteValue : Bytes := "_delete".toUTF8.toList.map fun b => BitVec.ofNat 8 b.toNat
+/-- the bytes of `"_delete"` (`DELETEVALUE`) -/
+def deleteValue : Bytes := [0x5f#8, 0x64#8, 0x65#8, 0x6c#8, 0x65#8, 0x74#8, 0x65#8]
 def isDelete : Val → Bool | .str b => b == deleteValue | _ => false
 
 def setKey (m : List (String × Val)) (k : String) (v : Val) : List (String × Val) :=
